@@ -389,3 +389,52 @@ def rf42(run):
     if n < 3:
         raise F.AnalysisBroken('only %d stores into lref data found (3 confirmed by hand)' % n)
     return n
+
+
+# ---------------------------------------------------------------------------------------------
+# RF47: the buffer handed to the FFI trampoline belongs to the call
+# ---------------------------------------------------------------------------------------------
+
+def rf47(run):
+    rule = 'RF47'
+    run.rule(rule, 'mir-interp.c call (): the argument/result buffer passed to the native-call trampoline, and read again after the '
+                   'native function returns, is storage of this activation (alloca or a local array), not a field of the interpreter '
+                   'context: the native callee may re-enter the interpreter, whose next native call would overwrite or reallocate a '
+                   'shared buffer before the outer call has taken its results')
+    tu = run.tu('mir')
+    f = tu.func('call')
+    run.functions_analysed.add(('mir', f.name))
+    tramp = [x for x in f.walk() if x['k'] == 'CallExpr' and x.get('callee') is None and 'ff_interface_addr' in F.src(F.strip(x['c'][0]))]
+    if len(tramp) != 1:
+        raise F.AnalysisBroken('call (): the indirect call of the trampoline was found %d times' % len(tramp))
+    buf = F.strip(F.call_args(tramp[0])[1])
+    kind = None
+    if buf['k'] == 'MemberExpr':
+        kind = ('shared', 'context field %s' % F.src(buf))
+    elif buf['k'] == 'DeclRefExpr' and buf.get('dk') in ('local', None):
+        t = tu.type(buf)
+        if t is not None and t.kind == 'array':
+            kind = ('local', 'local array')
+        else:
+            srcs = []
+            for x in f.walk():
+                if x['k'] == 'BinaryOperator' and x['op'] == '=' and F.src(F.strip(x['c'][0])) == buf['n']:
+                    srcs.append(F.strip(x['c'][1]))
+                if x['k'] == 'DeclStmt':
+                    for d in x['decls']:
+                        if d['n'] == buf['n'] and d.get('init') is not None:
+                            srcs.append(F.strip(d['init']))
+            if srcs and all(s_['k'] == 'CallExpr' and (s_.get('callee') in ('alloca', '__builtin_alloca', '_alloca')) for s_ in srcs):
+                kind = ('local', 'alloca')
+            elif any(s_['k'] == 'MemberExpr' or (s_['k'] == 'CallExpr' and (s_.get('callee') or '').startswith('VARR_')) for s_ in srcs):
+                kind = ('shared', 'assigned from %s' % F.src(srcs[0])[:50])
+    if kind is None:
+        raise F.AnalysisBroken('call (): origin of the trampoline buffer %s not classified' % F.src(buf))
+    ok = kind[0] == 'local'
+    run.ob(rule, ('trampoline-buffer',), ok, {'buffer': F.src(buf), 'origin': kind[1]})
+    if not ok:
+        run.violation(rule, f, 'trampoline buffer %s' % F.src(buf),
+                      'call () passes %s (%s) to the trampoline and reads the results from it after the native function returns; a native '
+                      'callee that calls back into interpreted code makes the nested call () reuse or reallocate that buffer, so the outer '
+                      'results are lost (or written into freed memory)' % (F.src(buf), kind[1]), line=tramp[0]['l'])
+    run.min_instances(rule, 1)
